@@ -1500,8 +1500,8 @@ class Engine:
                     stores.add(n.args[0].id)
                 if isinstance(n.func, ast.Attribute) and n.func.attr in ('sort', 'fill', 'resize', 'put', 'itemset') and isinstance(n.func.value, ast.Name):
                     stores.add(n.func.value.id)
-                if isinstance(n.func, ast.Attribute) and n.func.attr in ('append', 'extend', 'insert', 'pop', 'remove', 'clear') and isinstance(n.func.value, ast.Name):
-                    names.add(n.func.value.id)
+                if isinstance(n.func, ast.Attribute) and n.func.attr in ('append', 'extend', 'insert', 'pop', 'remove', 'clear') and isinstance(n.func.value, ast.Name) and n.func.value.id != 'np':
+                    names.add(n.func.value.id)       # (np.append is a function of the numpy module, not a list method)
                 s.generic_visit(n)
         for s_ in stmts:
             V().visit(s_)
@@ -1647,9 +1647,17 @@ class Engine:
         cnt = self.loop_counts.get(key, 0)
         spec = self.c.loops.get(key) or self.c.loops.get(self.stmt_ord.get(id(node), ''))     # key, or key#k with k the ordinal in source order
         self.loop_counts[key] = cnt + 1
+        pkey = None
+        if spec is None:
+            # loop keys may be fnmatch patterns (`for k in range(*`): a changed loop header is then verified against the invariant
+            # instead of being reported as a contract that no longer binds
+            import fnmatch
+            cands = [k for k in self.c.loops if any(ch in k for ch in '*?') and fnmatch.fnmatchcase(key, k)]
+            if len(cands) == 1:
+                pkey, spec = cands[0], self.c.loops[cands[0]]
         if spec is None:
             raise ContractError('no invariant for loop `%s` in %s' % (key, self.c.name))
-        self.used_loops.add(key if key in self.c.loops else self.stmt_ord.get(id(node), key))
+        self.used_loops.add(pkey if pkey is not None else (key if key in self.c.loops else self.stmt_ord.get(id(node), key)))
         lname = spec.get('name', key)
         names, stores = self.write_set(node.body + ([node] if isinstance(node, ast.For) else []))
         ghosts = spec.get('ghosts', ())
@@ -1807,7 +1815,9 @@ class Engine:
                 elif isinstance(v, bool):
                     s2.env[nm] = fresh('ab_' + nm, BOOL)
                 else:
-                    s2.env.pop(nm, None)
+                    # bound to an unknown value: it can be passed on (returned, assigned), any other use is outside the subset.
+                    # (Leaving the name unbound would make a later read look like the program's own UnboundLocalError.)
+                    s2.env[nm] = Opaque('havoc', name=nm)
         for clause in spec.get('assume', ()):
             s2.pc.append(truth(self.ev_str(clause, s2)))
         return [(s2, 'fall')]
@@ -1895,6 +1905,9 @@ class Engine:
                     self.oblige(s2, 'raises/%s/x%d' % (name, nret), truth(self.ev_str(src, s2)))
             else:
                 raise OutOfSubset('loop control outside loop')
+        if self.c.ensures and nret == 0 and self.c.stop_at is None and not getattr(self, 'stopped', False):
+            # vacuity guard: postconditions are stated but no path returns normally, so none of them would ever be checked
+            self.obls.append(Obligation('%s/ensures/NO-NORMAL-RETURN-PATH' % self.c.key, [], z3.BoolVal(False), kind='vc'))
         # every contract element must have been bound
         missing = [k for k in self.c.loops if k not in self.used_loops and ('#' in k or k.split('#')[0] not in self.used_loops)]
         missing += [k for k in self.c.abstract if k not in self.used_abstract]
@@ -1926,7 +1939,7 @@ def _sb_forall(eng, st, node):
     if not isinstance(lam, ast.Lambda):
         raise ContractError('forall needs a lambda')
     names = [a.arg for a in lam.args.args]
-    vs = [fresh('q_' + n, INT) for n in names]
+    vs = [fresh('q_' + n, REAL if n.startswith('real_') else INT) for n in names]      # bound variables named real_* range over the reals
     saved = {n: st.ghost.get(n) for n in names}
     for n, v in zip(names, vs):
         st.ghost[n] = v
@@ -2013,6 +2026,11 @@ def _sb_inr(eng, st, node):
 def _sb_arg(eng, st, node):
     """arg('R'): the value of parameter R at function entry (objects: their entry-time contents)."""
     nm = node.args[0].value
+    sa = st.ghost.get('_stub_args')
+    if sa is not None:
+        # inside a callee stub generated from contract clauses: the callee's parameter at ITS entry = the actual argument at the call
+        v = sa[nm]
+        return Opaque('snapshot', obj=st.heap[v.oid]) if isinstance(v, Ref) else v
     v = eng.entry.env[nm]
     if isinstance(v, Ref):
         o = eng.entry.heap[v.oid]
@@ -2603,6 +2621,81 @@ def _sb_lemma_wd(eng, st, node):
                   patterns=[z3.MultiPattern(wd(G, x, y), g(y, z))])))
 
 
+swalk = z3.Function('swalk', A2R, INT, INT, INT, INT, REAL, BOOL)      # swalk(G, k, x, y, m, l): a walk x -> y of m >= 1 connections, total length l, all intermediate nodes < k
+_fl_m1 = z3.Function('floyd_m1', A2R, INT, INT, INT, INT, REAL, INT)
+_fl_l1 = z3.Function('floyd_l1', A2R, INT, INT, INT, INT, REAL, REAL)
+_fl_m2 = z3.Function('floyd_m2', A2R, INT, INT, INT, INT, REAL, INT)
+_fl_l2 = z3.Function('floyd_l2', A2R, INT, INT, INT, INT, REAL, REAL)
+_fl_mw = z3.Function('floyd_mw', A2R, INT, INT, INT)
+
+
+def _sb_swalk(eng, st, node):
+    G = _term2(eng, st, eng.ev(node.args[0], st))
+    a = [to_z3(eng.ev(x, st), INT) for x in node.args[1:5]]
+    return swalk(G, a[0], a[1], a[2], a[3], to_z3(eng.ev(node.args[4 + 1], st), REAL))
+
+
+def _sb_lemma_floyd(eng, st, node):
+    """LEMMA (Lean: swalk_empty, swalk_insert, swalk_wd, floyd_smt): walks with restricted intermediate nodes, non-negative connection lengths.  lemma_floyd(G, n):
+    (base) a walk without intermediate nodes is a single connection: swalk(G,0,x,y,m,l) => G[x][y] != 0 and l == G[x][y];
+    (insert) a walk whose intermediate nodes are < k+1 either has all of them < k, or there are a walk x -> k and a walk k -> y with intermediate
+    nodes < k whose lengths add up to at most l (the closed part around k is dropped: lengths are non-negative);
+    (all) if y != x is reachable from x then the distance wd(G,x,y) is the length of a walk whose intermediate nodes are < n (all nodes)."""
+    G = _term2(eng, st, eng.ev(node.args[0], st))
+    n = to_z3(eng.ev(node.args[1], st), INT)
+    x, y, k, m = z3.Ints('x!fl y!fl k!fl m!fl')
+    l = z3.Real('l!fl')
+    g = lambda a, b: z3.Select(z3.Select(G, a), b)
+    inr_ = lambda t: z3.And(t >= 0, t < n)
+    hyp = z3.ForAll([x, y], z3.Implies(z3.And(inr_(x), inr_(y)), g(x, y) >= 0))
+    args = (G, k, x, y, m, l)
+    return z3.Implies(hyp, z3.And(
+        z3.ForAll([x, y, m, l], z3.Implies(z3.And(inr_(x), inr_(y), swalk(G, 0, x, y, m, l)), z3.And(g(x, y) != 0, l == g(x, y))), patterns=[swalk(G, 0, x, y, m, l)]),
+        z3.ForAll([k, x, y, m, l], z3.Implies(z3.And(inr_(k), inr_(x), inr_(y), swalk(G, k + 1, x, y, m, l)),
+                                              z3.Or(swalk(G, k, x, y, m, l),
+                                                    z3.And(swalk(G, k, x, k, _fl_m1(*args), _fl_l1(*args)), swalk(G, k, k, y, _fl_m2(*args), _fl_l2(*args)), _fl_l1(*args) + _fl_l2(*args) <= l))),
+                  patterns=[swalk(G, k + 1, x, y, m, l)]),
+        z3.ForAll([x, y], z3.Implies(z3.And(inr_(x), inr_(y), x != y, _reachw(G, x, y)), swalk(G, n, x, y, _fl_mw(G, x, y), wd(G, x, y))), patterns=[wd(G, x, y)])))
+
+
+def _sb_lemma_wd_triangle(eng, st, node):
+    """LEMMA (Lean: wd_triangle, wwalk_concat): non-negative connection lengths: y reachable from x through z  =>  wd(x, y) <= wd(x, z) + wd(z, y), and reachability is transitive.
+    lemma_wd_triangle(G, n)."""
+    G = _term2(eng, st, eng.ev(node.args[0], st))
+    n = to_z3(eng.ev(node.args[1], st), INT)
+    x, y, z = z3.Ints('x!wt y!wt z!wt')
+    g = lambda a, b: z3.Select(z3.Select(G, a), b)
+    inr_ = lambda t: z3.And(t >= 0, t < n)
+    hyp = z3.ForAll([x, y], z3.Implies(z3.And(inr_(x), inr_(y)), g(x, y) >= 0))
+    return z3.Implies(hyp, z3.ForAll([x, z, y], z3.Implies(z3.And(inr_(x), inr_(y), inr_(z), _reachw(G, x, z), _reachw(G, z, y)), z3.And(_reachw(G, x, y), wd(G, x, y) <= wd(G, x, z) + wd(G, z, y))),
+                                     patterns=[z3.MultiPattern(wd(G, x, z), wd(G, z, y))]))
+
+
+def _sb_lemma_sdist_support(eng, st, node):
+    """LEMMA (Lean: sdist_congr_support, walk_congr_support): the hop distance depends only on which entries are non-zero.  lemma_sdist_support(A, B, n):
+    A[x][y] != 0 <=> B[x][y] != 0 for all nodes  =>  sdist(A, x, y) == sdist(B, x, y) for all nodes."""
+    A = _term2(eng, st, eng.ev(node.args[0], st))
+    B = _term2(eng, st, eng.ev(node.args[1], st))
+    n = to_z3(eng.ev(node.args[2], st), INT)
+    x, y = z3.Ints('x!ss y!ss')
+    inr_ = lambda t: z3.And(t >= 0, t < n)
+    sel = lambda M, a, b: z3.Select(z3.Select(M, a), b)
+    hyp = z3.ForAll([x, y], z3.Implies(z3.And(inr_(x), inr_(y)), (sel(A, x, y) != 0) == (sel(B, x, y) != 0)))
+    return z3.Implies(hyp, z3.ForAll([x, y], z3.Implies(z3.And(inr_(x), inr_(y)), sdist(A, x, y) == sdist(B, x, y)), patterns=[sdist(A, x, y), sdist(B, x, y)]))
+
+
+def _sb_lemma_wd_binary(eng, st, node):
+    """LEMMA (Lean: wd_binary_smt, wd_binary, wwalk_binary_len): on a 0/1 matrix every connection has length 1, so the weighted distance is the hop distance.
+    lemma_wd_binary(G, n): all entries 0 or 1  =>  for x != y with sdist(G, x, y) >= 1: wd(G, x, y) == sdist(G, x, y)."""
+    G = _term2(eng, st, eng.ev(node.args[0], st))
+    n = to_z3(eng.ev(node.args[1], st), INT)
+    x, y = z3.Ints('x!wb y!wb')
+    inr_ = lambda t: z3.And(t >= 0, t < n)
+    g = lambda a, b: z3.Select(z3.Select(G, a), b)
+    hyp = z3.ForAll([x, y], z3.Implies(z3.And(inr_(x), inr_(y)), z3.Or(g(x, y) == 0, g(x, y) == 1)))
+    return z3.Implies(hyp, z3.ForAll([x, y], z3.Implies(z3.And(inr_(x), inr_(y), x != y, sdist(G, x, y) >= 1), wd(G, x, y) == z3.ToReal(sdist(G, x, y))), patterns=[wd(G, x, y), sdist(G, x, y)]))
+
+
 def _sb_lemma_dijkstra(eng, st, node):
     """LEMMA (Lean: dijkstra_step, dijkstra_exhausted, dijkstra_lower).  lemma_dijkstra(G, u, P, T, pr, n): P boolean array (permanent nodes), T real array (tentative
     values), pr integer array (a permanent predecessor attaining a finite tentative value).  Hypotheses: non-negative lengths; u in P; every
@@ -2974,6 +3067,8 @@ def _sb_same_object(eng, st, node):
 def _sb_unchanged(eng, st, node):
     """unchanged('R'): the object passed as parameter R has, now, exactly its entry-time contents."""
     nm = node.args[0].value
+    if st.ghost.get('_stub_args') is not None:
+        return True          # a stub never writes: the callee's "argument untouched" clause holds of the model by construction
     v = eng.entry.env[nm]
     if not isinstance(v, Ref):
         return True
@@ -3006,7 +3101,7 @@ SPEC_BUILTINS = {
     'dot2': _sb_dot2, 'isperm': _sb_isperm, 'same_object': _sb_same_object, 'unchanged': _sb_unchanged,
     'snapshot': _sb_snapshot, 'argref': _sb_argref, 'lam1': _sb_lam1, 'KCf': _sb_KCf, 'KNf': _sb_KNf, 'result_is_empty': _sb_result_is_empty, 'hopsint': _sb_hopsint, 'lam2': _sb_lam2, 'unique_witness': _sb_unique_witness, 'member': _sb_member, 'dset': _sb_dset(dset), 'rset': _sb_dset(rset), 'wset': _sb_dset(wset), 'cntb': _sb_cntb,
     'modsum': _mk_mod(modsum, 3), 'modsumT': _mk_mod(modsumT, 3), 'degsum': _mk_mod(degsum, 2), 'degsumT': _mk_mod(degsumT, 2), 'agg': _mk_mod(agg, 3),
-    'Qmod': _sb_Qmod, 'walk': _sb_walk, 'isint': (lambda eng, st, node: z3.IsInt(to_z3(eng.ev(node.args[0], st), REAL))), 'sdist': _sb_sdist, 'lemma_walks': _sb_lemma_walks, 'Qrawg': _sb_Qrawg, 'umul': _sb_umul, 'lemma_umul_linear': _sb_lemma_umul_linear, 'QrawB': _mk_mod(QrawB, 1), 'tsum': _mk_specfn(tsum, 1), 'csum': _mk_specfn(csum, 2), 'lemma_modularity': _sb_lemma_modularity, 'lemma_knm_sums': _sb_lemma_knm_sums, 'lemma_relabel': _sb_lemma_relabel, 'lemma_relabel_g': _sb_lemma_relabel_g, 'lemma_agg_compose': _sb_lemma_agg_compose, 'pathsum': _sb_pathsum, 'lemma_pathsum': _sb_lemma_pathsum, 'appended_value': (lambda eng, st, node: st.ghost['_append_last'][1]), 'lemma_reach_closed': _sb_lemma_reach_closed, 'Not': (lambda eng, st, node: z3.Not(truth(eng.ev(node.args[0], st)))), 'wd': _sb_wd, 'lemma_wd': _sb_lemma_wd, 'lemma_dijkstra': _sb_lemma_dijkstra, 'last_masked_argmin': _sb_last_masked_argmin, 'msq': _sb_msq, 'lemma_msq': _sb_lemma_msq, 'lemma_modsum_def': _sb_lemma_modsum_def, 'lemma_walk_ends': _sb_lemma_walk_ends, 'lemma_nonneg_sum_zero': _sb_lemma_nonneg_sum_zero, 'mpw': _sb_mpw, 'mateq': _sb_mateq, 'lemma_mpw': _sb_lemma_mpw, 'lemma_pathsum_append': _sb_lemma_pathsum_append, 'lemma_ext_B': _sb_lemma_ext_B, 'lemma_Q_from_kernel': _sb_lemma_Q_from_kernel, 'lemma_QrawB_def': _sb_lemma_QrawB_def, 'lemma_trace_agg': _sb_lemma_trace_agg, 'lemma_relabel_B': _sb_lemma_relabel_B, 'lemma_agg_compose_B': _sb_lemma_agg_compose_B, 'lemma_Qrawg_def': _sb_lemma_Qrawg_def, 'lemma_agg_compose_g': _sb_lemma_agg_compose_g, 'lemma_qg_from_aggregate': _sb_lemma_qg_from_aggregate, 'lemma_flat_count': _sb_lemma_flat_count, 'unique_count': (lambda eng, st, node: st.ghost['unique_count_last']), 'rounds_to': _sb_rounds_to, 'where_index': _sb_where_index, 'where_index1': _sb_where_index1, 'argsort_inverse': _sb_argsort_inverse, 'exists': _sb_exists, 'lemma_tsum_add': _sb_lemma_tsum_add, 'lemma_tsum_int': _sb_lemma_tsum_int, 'lemma_full_offdiag': _sb_lemma_full_offdiag, 'flat_store_rows': (lambda eng, st, node: st.ghost['_flat_store'][0]), 'flat_store_cols': (lambda eng, st, node: st.ghost['_flat_store'][1]), 'flat_store_len': (lambda eng, st, node: st.ghost['_flat_store'][2]), 'lemma_tsum_plus_transpose': _sb_lemma_tsum_plus_transpose, 'lemma_image_count': _sb_lemma_image_count,
+    'Qmod': _sb_Qmod, 'walk': _sb_walk, 'isint': (lambda eng, st, node: z3.IsInt(to_z3(eng.ev(node.args[0], st), REAL))), 'sdist': _sb_sdist, 'lemma_walks': _sb_lemma_walks, 'Qrawg': _sb_Qrawg, 'umul': _sb_umul, 'lemma_umul_linear': _sb_lemma_umul_linear, 'QrawB': _mk_mod(QrawB, 1), 'tsum': _mk_specfn(tsum, 1), 'csum': _mk_specfn(csum, 2), 'lemma_modularity': _sb_lemma_modularity, 'lemma_knm_sums': _sb_lemma_knm_sums, 'lemma_relabel': _sb_lemma_relabel, 'lemma_relabel_g': _sb_lemma_relabel_g, 'lemma_agg_compose': _sb_lemma_agg_compose, 'pathsum': _sb_pathsum, 'lemma_pathsum': _sb_lemma_pathsum, 'appended_value': (lambda eng, st, node: st.ghost['_append_last'][1]), 'lemma_reach_closed': _sb_lemma_reach_closed, 'Not': (lambda eng, st, node: z3.Not(truth(eng.ev(node.args[0], st)))), 'wd': _sb_wd, 'lemma_wd': _sb_lemma_wd, 'swalk': _sb_swalk, 'lemma_floyd': _sb_lemma_floyd, 'lemma_wd_triangle': _sb_lemma_wd_triangle, 'lemma_sdist_support': _sb_lemma_sdist_support, 'lemma_wd_binary': _sb_lemma_wd_binary, 'lemma_dijkstra': _sb_lemma_dijkstra, 'last_masked_argmin': _sb_last_masked_argmin, 'msq': _sb_msq, 'lemma_msq': _sb_lemma_msq, 'lemma_modsum_def': _sb_lemma_modsum_def, 'lemma_walk_ends': _sb_lemma_walk_ends, 'lemma_nonneg_sum_zero': _sb_lemma_nonneg_sum_zero, 'mpw': _sb_mpw, 'mateq': _sb_mateq, 'lemma_mpw': _sb_lemma_mpw, 'lemma_pathsum_append': _sb_lemma_pathsum_append, 'lemma_ext_B': _sb_lemma_ext_B, 'lemma_Q_from_kernel': _sb_lemma_Q_from_kernel, 'lemma_QrawB_def': _sb_lemma_QrawB_def, 'lemma_trace_agg': _sb_lemma_trace_agg, 'lemma_relabel_B': _sb_lemma_relabel_B, 'lemma_agg_compose_B': _sb_lemma_agg_compose_B, 'lemma_Qrawg_def': _sb_lemma_Qrawg_def, 'lemma_agg_compose_g': _sb_lemma_agg_compose_g, 'lemma_qg_from_aggregate': _sb_lemma_qg_from_aggregate, 'lemma_flat_count': _sb_lemma_flat_count, 'unique_count': (lambda eng, st, node: st.ghost['unique_count_last']), 'rounds_to': _sb_rounds_to, 'where_index': _sb_where_index, 'where_index1': _sb_where_index1, 'argsort_inverse': _sb_argsort_inverse, 'exists': _sb_exists, 'lemma_tsum_add': _sb_lemma_tsum_add, 'lemma_tsum_int': _sb_lemma_tsum_int, 'lemma_full_offdiag': _sb_lemma_full_offdiag, 'flat_store_rows': (lambda eng, st, node: st.ghost['_flat_store'][0]), 'flat_store_cols': (lambda eng, st, node: st.ghost['_flat_store'][1]), 'flat_store_len': (lambda eng, st, node: st.ghost['_flat_store'][2]), 'lemma_tsum_plus_transpose': _sb_lemma_tsum_plus_transpose, 'lemma_image_count': _sb_lemma_image_count,
     'frow': (lambda eng, st, node: frow(to_z3(eng.ev(node.args[0], st), INT), to_z3(eng.ev(node.args[1], st), INT))), 'fcol': (lambda eng, st, node: fcol(to_z3(eng.ev(node.args[0], st), INT), to_z3(eng.ev(node.args[1], st), INT))), 'lemma_agg_symm': _sb_lemma_agg_symm, 'lemma_agg_identity': _sb_lemma_agg_identity, 'lemma_q_from_aggregate': _sb_lemma_q_from_aggregate,
     'lemma_masked_degree': _sb_lemma_masked_degree, 'lemma_degree_monotone': _sb_lemma_degree_monotone, 'result': _sb_result, 'raised': _sb_raised, 'shape_is': _sb_shape_is,
 }
